@@ -13,9 +13,9 @@ package message
 //@   requires m != nil && r != nil
 //@   ghost n0 := 0
 //@   at call CborReadHeaderBuf#1: after ghost n0 := result1
-//@   at make#2: allocbound cap <= 8192
+//@   at make#1: allocbound cap <= 8192
+//@   at make#2: allocbound cap <= 2097152
 //@   at make#3: allocbound cap <= 2097152
-//@   at make#4: allocbound cap <= 2097152
 //@   loop 1: invariant 0 <= i && extra <= 8192 && (extra > 0 ==> len(m.Addrs) == extra) && (n0 == 3 || n0 == 4) && (hasOrigPeer <==> n0 == 4)
 //@   loop 1: decreases extra - i
 //@   ensures-local result == nil ==> (n0 == 3 || n0 == 4)
